@@ -78,6 +78,7 @@ class Rec(object):
         self.samples = []
         self.caps = []                # names of caps that were hit (=> not exhaustive)
         self.notes = collections.Counter()
+        self.history = None           # cases the worker process had run before this one (set only when something failed)
 
     # -- recording ---------------------------------------------------------
     def ev(self, n=1):
@@ -137,6 +138,8 @@ class Rec(object):
             if kept < MAX_VIOL_KEPT_PER_CASE:
                 v = dict(v)
                 v['case'] = case
+                if other.history:
+                    v['history'] = other.history
                 self.violations.append(v)
         for s in other.samples:
             if len(self.samples) < 5:
@@ -203,9 +206,16 @@ def run_one(mod, ctx, case, timeout):
     return rec
 
 
+_HISTORY = []          # the cases this process has run so far, in order: an execution is a sequence of cases in one process
+
+
 def _work(case):
     sys.stdout = open(os.devnull, 'w')
-    return run_one(_MOD, _CTX, case, _TIMEOUT)
+    rec = run_one(_MOD, _CTX, case, _TIMEOUT)
+    if rec.violations:
+        rec.history = list(_HISTORY)
+    _HISTORY.append(case)
+    return rec
 
 
 # ---------------------------------------------------------------------------
@@ -297,6 +307,10 @@ def write_replay(mod, tier, seed, v):
     body = {'property': mod.ID, 'tier': tier, 'seed': seed, 'case': v.get('case'),
             'sig': v['sig'], 'sub': v['sub'], 'obs': v['obs'], 'detail': v['detail'],
             'tree': env.tree_id()}
+    if v.get('history'):
+        # the cases the worker process had run before the failing one: replayed first if the case alone does not fail
+        # (an implementation that keeps process-level state fails only after a particular history of calls)
+        body['history'] = v['history']
     hh = hashlib.sha1(json.dumps([body['case'], body['sig'], body['sub'], tier, seed], sort_keys=True).encode()).hexdigest()[:12]
     path = os.path.join(d, hh + '.json')
     with open(path, 'w') as f:
@@ -309,10 +323,38 @@ def do_replay(mod, path, quiet_out=False):
         body = json.load(f)
     ctx = mod.setup(body['tier'], body['seed'])
     timeout = 600
-    rec = run_one(mod, ctx, body['case'], timeout)
-    hit = [v for v in rec.violations if v['sig'] == body['sig'] and v['sub'] == body['sub']]
-    if not hit:
-        hit = [v for v in rec.violations if v['sig'] == body['sig']]
+    with_history = (os.environ.get('_VERIF_REPLAY_WITH_HISTORY') == '1' and body.get('history'))
+    hit = []
+    if not with_history:
+        rec = run_one(mod, ctx, body['case'], timeout)
+        hit = [v for v in rec.violations if v['sig'] == body['sig'] and v['sub'] == body['sub']]
+        if not hit:
+            hit = [v for v in rec.violations if v['sig'] == body['sig']]
+    if not hit and body.get('history'):
+        # the case alone holds: replay the whole execution -- every case the failing process had run before it, in
+        # order, then the case (in yet another fresh process, so that the attempt above leaves no trace)
+        if os.environ.get('_VERIF_REPLAY_WITH_HISTORY') != '1':
+            e = dict(os.environ, _VERIF_REPLAY_WITH_HISTORY='1', PYTHONHASHSEED='0')
+            r = subprocess.run([sys.executable, os.path.join(env.VERIF, 'run_check.py'), mod.ID, '--replay', path] + (['--brief'] if quiet_out else []),
+                               env=e, capture_output=True, text=True, timeout=3600)
+            sys.stdout.write(r.stdout[-4000:])
+            return r.returncode
+    if with_history:
+        # (this process: history first, then the case)
+        old_out = sys.stdout
+        for c in body['history']:
+            run_one(mod, ctx, c, timeout)
+        sys.stdout = old_out
+        rec = run_one(mod, ctx, body['case'], timeout)
+        hit = [v for v in rec.violations if v['sig'] == body['sig'] and v['sub'] == body['sub']] or [v for v in rec.violations if v['sig'] == body['sig']]
+        if hit:
+            print("REPLAY-VIOLATION property=%s sig=%s obs=%s (fails only after the %d cases the process had run before it: the "
+                  "implementation keeps state between calls; the replay file lists that history)" % (mod.ID, body['sig'], hit[0]['obs'], len(body['history'])))
+            if not quiet_out:
+                print(json.dumps(hit[0]['detail'], indent=1)[:3000])
+            return 1
+        print("REPLAY-PASS property=%s (the recorded violation does not occur on this tree, with or without the recorded history)" % mod.ID)
+        return 0
     same = [v for v in hit if v['obs'] == body['obs']]
     if same:
         print("REPLAY-VIOLATION property=%s sig=%s obs=%s" % (mod.ID, body['sig'], body['obs']))
@@ -392,7 +434,11 @@ def main(argv=None):
     try:
         if nw == 1:
             for c in cases:
-                total.merge(run_one(mod, ctx, c, _TIMEOUT), case=c)
+                r1 = run_one(mod, ctx, c, _TIMEOUT)
+                if r1.violations:
+                    r1.history = list(_HISTORY)
+                _HISTORY.append(c)
+                total.merge(r1, case=c)
         else:
             mp = multiprocessing.get_context('fork')
             chunk = max(1, min(64, len(cases) // (nw * 6) or 1))
